@@ -184,3 +184,23 @@ Example C03_grow_app_binary64_refuted :
   /\ grow ap64 0 h (grow ap64 0 h stats0 a) b <> grow ap64 0 h stats0 (a ++ b)
   /\ f64_lt (nth 0 (s_max (stats_of ap64 0 h (a ++ b))) 0) (nth 0 (s_min (stats_of ap64 0 h (a ++ b))) 0) = true.
 Proof. exact grow_app_binary64_refuted. Qed.
+
+(* ---------------------------------------------------------------------------------- *)
+(* Round 6: sessions that are closed more than once / used after their close (Model/LasEnd.v) *)
+(* ---------------------------------------------------------------------------------- *)
+From LasV Require Import Model.AppendCap Model.LasEnd Proofs.EndProofs.
+
+(* the file an appender leaves after ANY sequence of calls that contains a close - refused chunks anywhere, a second close, chunks after the close -
+   is the append of the chunks accepted before the first close: the header equalities (C03_count ... C03_file_length through C06_append_equiv) are
+   those of that file *)
+Theorem C03_ended_session_file : forall ap src s calls post, aopen src = Ok s ->
+  snd (arun_ops ap (aclose) s (calls_of calls ++ AoClose :: post)) = Some (arun ap src (taken ap s calls)).
+Proof. exact ended_session_file. Qed.
+Print Assumptions C03_ended_session_file.
+
+(* the in-place rewrite of the header at close, whatever the caller did to the session's own header meanwhile: refused, or the file keeps its
+   length and every byte from the first point on (so file length = offset + count x record length + EVLR bytes is not disturbed by the rewrite) *)
+Theorem C03_own_header_edited : forall off hb f f', 0 <= off <= len f ->
+  guarded_rewrite off hb f = Ok f' -> tail_from off f' = tail_from off f /\ length f' = length f.
+Proof. exact guarded_rewrite_keeps_points. Qed.
+Print Assumptions C03_own_header_edited.
